@@ -4,7 +4,7 @@ from ..codec import Rng, expand, spec_len
 from .. import oracle as o
 
 ID = 'C13'
-RULE = ('one record per call of keypair / signature / signature_extended / extended_to_public / exchange; outputs must equal the RFC 8032 transcription '
+RULE = ('(messages are handed to the library from byte offset (len + first byte) mod 16 of a 64-byte aligned buffer) one record per call of keypair / signature / signature_extended / extended_to_public / exchange; outputs must equal the RFC 8032 transcription '
         '(and X25519 of the hashed secret with the birationally mapped key for exchange); every message length 0..=300 (one seed in quick, several in thorough), '
         'sampled 1-64 KiB, structured seeds, extended secrets derived from seeds and arbitrary clamped ones; distinct = (op, seed class, message length)')
 ASSUMPTIONS = ['bulk phase: the force-32bits backend serves as a second implementation for locating rare disagreements; a disagreement is reported only when the Python model shows the default build wrong, and sampled outputs are always checked against the Python model', 'Python-int RFC 8032 model pinned by RFC 8032 7.1 vectors; hashlib SHA-512']
